@@ -20,7 +20,8 @@ theorem packFiles_spec {P : Params} (hP : P.ans = serialAns) (hc : CodecOk P.cod
         g'.front = g.front ++ items ∧ g'.fe = g.fe ++ feEffs s.w.inodes.length files ∧ PInv P s' g' 0 W' ∧
         FrontInv P.B s'.fe g'.front s'.w.inodes.length ∧ s'.beginCalled = false ∧ g'.fin = false ∧
         s'.w.inodes.length = s.w.inodes.length + files.length ∧ s'.maxBacklog = s.maxBacklog) ∨
-      (∃ e, packFiles P s files = .error e ∧ feFiles P.B s.w.inodes.length files = .error e) := by
+      (∃ e, packFiles P s files = .error e ∧ feFiles P.B s.w.inodes.length files = .error e ∧ e = .unsupported ∧
+        ∃ f ∈ files, ¬ f.flags &&& blkUserSettable = f.flags) := by
   intro files
   induction files with
   | nil =>
@@ -31,7 +32,7 @@ theorem packFiles_spec {P : Params} (hP : P.ans = serialAns) (hc : CodecOk P.cod
     by_cases hfl : f.flags &&& blkUserSettable = f.flags
     · obtain ⟨s1, g1, W1, items1, hp1, hf1, hfront1, hgfe1, h1, hfe1, hidle1, hfin1, hil1, hmb1⟩ :=
         packFile_ok hP hc hB hBpos h hfe hidle hfin f hfl
-      rcases ih s1 g1 W1 h1 hfe1 hidle1 hfin1 with ⟨s', g', W', items, hp, hf, hfront, hgfe, h', hfe', hidle', hfin', hil, hmb⟩ | ⟨e, hp, hf⟩
+      rcases ih s1 g1 W1 h1 hfe1 hidle1 hfin1 with ⟨s', g', W', items, hp, hf, hfront, hgfe, h', hfe', hidle', hfin', hil, hmb⟩ | ⟨e, hp, hf, he, fb, hfb, hbad⟩
       · left
         refine ⟨s', g', W', items1 ++ items, ?_, ?_, ?_, ?_, h', hfe', hidle', hfin', ?_, hmb.trans hmb1⟩
         · simp only [packFiles, hp1]; exact hp
@@ -40,11 +41,11 @@ theorem packFiles_spec {P : Params} (hP : P.ans = serialAns) (hc : CodecOk P.cod
         · rw [hgfe, hgfe1, hil1]; simp only [feEffs, List.append_assoc]
         · rw [hil, hil1]; simp only [List.length_cons]; omega
       · right
-        refine ⟨e, ?_, ?_⟩
+        refine ⟨e, ?_, ?_, he, fb, List.mem_cons_of_mem _ hfb, hbad⟩
         · simp only [packFiles, hp1]; exact hp
         · simp only [feFiles, hf1]; rw [hil1] at hf; rw [hf]
     · right
-      refine ⟨.unsupported, ?_, ?_⟩
+      refine ⟨.unsupported, ?_, ?_, rfl, f, List.mem_cons_self, hfl⟩
       · simp only [packFiles, packFile, beginFile_unsupported s f.flags hidle hfl]
       · simp only [feFiles, feFile]
         rw [if_pos (by simpa using hfl)]
@@ -256,11 +257,13 @@ structure Final (P : Params) (files : List InFile) (s : Proc) : Prop where
 
 theorem run_final {P : Params} (hP : P.ans = serialAns) (hc : CodecOk P.codec) (hBpos : 0 < P.B) (hB : P.B < 2 ^ 24)
     (mb : Nat) (files : List InFile) :
-    (∃ s, runProc P mb files = .ok s ∧ Final P files s) ∨ (∃ e, runProc P mb files = .error e ∧ packRef P files = .error e) := by
+    (∃ s, runProc P mb files = .ok s ∧ Final P files s) ∨
+    (∃ e, runProc P mb files = .error e ∧ packRef P files = .error e ∧ e = .unsupported ∧
+      ∃ f ∈ files, ¬ f.flags &&& blkUserSettable = f.flags) := by
   have h0 := PInv.init P mb
   have hfe0 : FrontInv P.B (create P mb).fe ({} : Ghost).front (create P mb).w.inodes.length := FrontInv.init P.B
   rcases packFiles_spec hP hc hB hBpos files (create P mb) {} _ h0 hfe0 rfl rfl with
-    ⟨s1, g1, W1, items, hp, hf, hfront, hgfe, h1, hfe1, hidle1, hfin1, hil, hmb⟩ | ⟨e, hp, hf⟩
+    ⟨s1, g1, W1, items, hp, hf, hfront, hgfe, h1, hfe1, hidle1, hfin1, hil, hmb⟩ | ⟨e, hp, hf, he, hbad⟩
   · left
     obtain ⟨s2, g2, W2, hfn, h2, hi2, hq2, hb2, hfront2, hgfe2, hil2, hF2⟩ := finish_ok hP hc hB h1 hfe1 hidle1 hfin1
     have hfr : g1.front = items := by rw [hfront]; rfl
@@ -310,7 +313,7 @@ theorem run_final {P : Params} (hP : P.ans = serialAns) (hc : CodecOk P.codec) (
         have e2 : g2.fe = feEffs 0 files := by rw [hgfe2, hgfe]; rfl
         rw [e1, e2]
   · right
-    refine ⟨e, ?_, ?_⟩
+    refine ⟨e, ?_, ?_, he, hbad⟩
     · unfold runProc; rw [hp]
     · unfold packRef
       have : (create P mb).w.inodes.length = 0 := rfl
@@ -320,7 +323,7 @@ theorem run_final {P : Params} (hP : P.ans = serialAns) (hc : CodecOk P.codec) (
 theorem run_eq_packRef {P : Params} (hP : P.ans = serialAns) (hc : CodecOk P.codec) (hBpos : 0 < P.B) (hB : P.B < 2 ^ 24)
     (mb : Nat) (files : List InFile) : run P mb files = packRef P files := by
   unfold run
-  rcases run_final hP hc hBpos hB mb files with ⟨s, hr, hf⟩ | ⟨e, hr, hp⟩
+  rcases run_final hP hc hBpos hB mb files with ⟨s, hr, hf⟩ | ⟨e, hr, hp, _⟩
   · rw [hr, hf.output]
   · rw [hr, hp]
 
